@@ -2,7 +2,7 @@
 # seedsweep.sh [seed...]: apply each seeded change to /repo, run the quick check of the property it breaks
 # (and of any property listed in meta.json "also"), undo it straight afterwards. Prints one line per seed.
 cd /verif
-seeds=${@:-$(ls seeded | grep -E '^C[0-9]+-[AB]$')}
+seeds=${@:-$(ls seeded | grep -E '^C[0-9]+-[A-Z]$')}
 for s in $seeds; do
   prop=${s%-*}
   if ! git -C /repo diff --quiet; then echo "repo dirty, abort"; exit 2; fi
